@@ -5,8 +5,10 @@ package lnd
 import (
 	"context"
 
+	"github.com/btcsuite/btcd/chaincfg"
 	"github.com/elementsproject/peerswap/onchain"
 	"github.com/lightningnetwork/lnd/lnrpc"
+	"github.com/lightningnetwork/lnd/lnrpc/chainrpc"
 	"github.com/lightningnetwork/lnd/lnrpc/routerrpc"
 	"github.com/lightningnetwork/lnd/lnrpc/walletrpc"
 )
@@ -27,5 +29,23 @@ func VerifNewClient(ctx context.Context, lndClient lnrpc.LightningClient, wallet
 		bitcoinOnChain:       chain,
 		ctx:                  ctx,
 		invoiceSubscriptions: make(map[string]interface{}),
+	}
+}
+
+// VerifNewTxWatcher builds the LND tx watcher over in-process gRPC client
+// fakes instead of a grpc.ClientConn.
+func VerifNewTxWatcher(ctx context.Context, lndClient lnrpc.LightningClient, chainClient chainrpc.ChainNotifierClient,
+	network *chaincfg.Params, targetConfirmation, targetCsv uint32) *TxWatcher {
+	ctx, cancel := context.WithCancel(ctx)
+	return &TxWatcher{
+		ctx:                  ctx,
+		cancel:               cancel,
+		lnrpcClient:          lndClient,
+		chainrpcClient:       chainClient,
+		network:              network,
+		targetConfs:          targetConfirmation,
+		targetCsv:            targetCsv,
+		confirmationWatchers: make(map[string]bool),
+		waitForCsvWatchers:   make(map[string]bool),
 	}
 }
